@@ -82,21 +82,16 @@ run over the rows with iterator, bookmarks and mutable context returns exactly w
 reading `evP` of the sheet's scan tree returns: the same events in the same order, or the same
 first error; and the context it leaves behind is the one it started with. -/
 theorem flat_eq_scan_tree (I : FIface Raw Inst Ctx Val Hdr Err S) (L : FlatLaws I) (ctx : Ctx) (rows : List Raw) :
-    runFlat I ctx rows =
-      (match evP I ctx (parseAll I.kind rows) with
-       | .error x => .error x
-       | .ok es => .ok (es, ctx)) :=
-  runFlat_eq_evP I L ctx rows
+    runFlat I ctx rows = (evP I ctx (parseAll I.kind rows)).map fun es => (es, ctx) := by
+  rw [runFlat_eq_evP I L ctx rows]
+  cases evP I ctx (parseAll I.kind rows) <;> rfl
 
 /-- **Flat machine = `Sugar.evItems` of the parsed tree** (well-nested quiet sheets): the same
 events in the same order, the error of the same (first failing) row, and the final context is the
 initial one — loop variables gone after end_for, shadowed ones restored. -/
 theorem flat_eq_tree (I : FIface Raw Inst Ctx Val Hdr Err S) (L : FlatLaws I) (ctx : Ctx) (rows : List Raw)
     (its : List (FItem Raw)) (hp : parseTree I.kind rows = .ok its) (hq : Quiet I rows) :
-    runFlat I ctx rows =
-      (match evItems I.toIface ctx (eraseL its) with
-       | .error e => .error (.err e)
-       | .ok es => .ok (es, ctx)) := by
+    runFlat I ctx rows = withCtx ctx (evItems I.toIface ctx (eraseL its)) := by
   obtain ⟨hfl, hwk⟩ := parseTree_sound I.kind rows its hp
   rw [runFlat_eq_evP I L, (parseTree_ok_iff I.kind rows its).1 hp]
   simp only [evP]
@@ -209,6 +204,7 @@ theorem flat_events_desugar (I : FIface Raw Inst Ctx Val Hdr Err S) (L : Laws I.
   have hp := parseTree_flatten I.kind _ hwk'
   have := flat_eq_tree I FL ctx' (flatten ef eb its') _ hp hq
   rw [this, eraseL_uneraseL, h2 ctx']
+  rfl
 
 /-- …starting from a flat sugared sheet: the flat machine performs the same events on the sheet
 and on the flat sheet of its desugared form. -/
@@ -224,6 +220,7 @@ theorem flat_desugar_flat (I : FIface Raw Inst Ctx Val Hdr Err S) (L : Laws I.to
     (WkIL_eraseL I.kind t hwk) h hq
   refine ⟨es, ?_, h2⟩
   rw [flat_eq_tree I FL ctx rows t hp hqr, h1]
+  rfl
 
 /-! ### a concrete interface: non-vacuity, worked runs, and why each hypothesis is there -/
 
@@ -418,6 +415,14 @@ example : (parseTree toyF.kind flatSheet).toOption.isSome = true ∧ quietToy fl
     ((parseTree toyF.kind flatSheet).toOption.bind fun t =>
       ((evItems toyF.toIface ctxW (eraseL t)).toOption.map fun es => es.map obsEv)) = some flatEvents := by
   decide
+
+/-- `flat_eq_tree` applied: its hypotheses hold together on this sheet -/
+example : ∃ t, parseTree toyF.kind flatSheet = .ok t ∧
+    runFlat toyF ctxW flatSheet = withCtx ctxW (evItems toyF.toIface ctxW (eraseL t)) := by
+  have h : (parseTree toyF.kind flatSheet).toOption.isSome = true := by decide
+  cases hp : parseTree toyF.kind flatSheet with
+  | error f => rw [hp] at h; simp [Except.toOption] at h
+  | ok t => exact ⟨t, rfl, flat_eq_tree toyF toyF_laws ctxW flatSheet t hp (quiet_toy _ (by decide))⟩
 
 /-- the desugared form of `flatSheet` in `ctxW`, written as a flat sheet again -/
 def flatTwin : List FRaw :=
